@@ -7,7 +7,7 @@ from spec import step_model as M
 
 PROPERTY = "C19"
 BOUNDS = {
-    "quick": "the 4 adjacent ordered pairs (1.4,1.5), (1.5,2.0), (2.0,2.1), (2.1,2.2) - equality is transitive and the stated restrictions are nested, so they imply the other 6 pairs, which the thorough tier runs explicitly: the same pre-state (0..1 node, id sym [10,99], sleeping/reboot symbolic, 0..1 child, 0..1 stored value, 0..1 parked command for a sleeping node, outstanding-request marker symbolic) is built in two real gateways and the same symbolic event is applied to both: received line (command per partition; internal type sym over the OLDER version's table; set/req/presentation type sym [0,9]; payload symbolic |p|<=1 or class list) or a send call (set / internal, buffering flag symbolic); outcome, error attributes, writes, registry and buffers must be equal. Exemptions exactly as stated: heartbeat response between {2.0,2.1} and 2.2; 1.x vs 2.x only with known node/child and without gateway-ready",
+    "quick": "the 4 adjacent ordered pairs (1.4,1.5), (1.5,2.0), (2.0,2.1), (2.1,2.2) - equality is transitive and the stated restrictions are nested, so they imply the other 6 pairs, which the thorough tier runs explicitly: the same pre-state (0..1 node, id sym [10,99], sleeping/reboot symbolic, 0..1 child, 0..1 stored value, 0..1 parked command for a sleeping node, outstanding-request marker symbolic) is built in two real gateways and the same symbolic event is applied to both: received line (command per partition; internal type sym over the OLDER version's table; set/req/presentation type sym [0,9]; payload symbolic |p|<=1 or class list) or a send call (set / internal, buffering flag symbolic); outcome, error attributes, writes, registry and buffers must be equal. Exemptions exactly as stated: for a heartbeat response between {2.0,2.1} and 2.2 only the sleeping flag and the released commands may differ (outcome, errors, heartbeat value still compared); 1.x vs 2.x only with known node/child and without gateway-ready",
     "thorough": "all 10 ordered pairs with the quick dimensions, plus the 4 adjacent pairs with ids sym [0,255] (every digit class)",
 }
 REALISED = ["internal type numbers inside the older table are one path per value"]
@@ -147,6 +147,7 @@ def sym_recv(inp, part):
     lo, hi = part["idlo"], part["idhi"]
     n = draw_id(inp, "n", part, lo, hi)
     c = 255 if (hi < 255 and inp.bool("sys")) else draw_id(inp, "c", part, lo, hi)
+    hb_exempt = False
     marked = inp.bool("marked")
     parked = False if part.get("noparked") else inp.bool("parked")
     if cmd == 3:
@@ -157,8 +158,7 @@ def sym_recv(inp, part):
             raise Reject  # id request may carry any child id: covered with c != 255 below? keep it simple: C11
         if cross_major and t == 14:
             raise Reject
-        if t == 22 and new == "2.2" and old in ("2.0", "2.1"):
-            raise Reject  # the stated exception
+        hb_exempt = t == 22 and new == "2.2" and old in ("2.0", "2.1")  # the stated exception, see below
         if t == 0:
             p = BATTERY_TEXTS[inp.pick("bt", 6)]
         elif t == 2:
@@ -216,6 +216,14 @@ def sym_recv(inp, part):
         for f in ("node_id", "child_id", "command", "ack", "message_type", "payload"):
             if getattr(v1, f) != getattr(v2, f):
                 raise Violation("%s:yield" % what, "line %r: yielded %s %r vs %r" % (line, f, getattr(v1, f), getattr(v2, f)))
+    if cmd == 3 and hb_exempt and k1 == "msg":
+        # exempt: marks the node as sleeping and releases its parked commands in 2.0/2.1 only;
+        # everything else (outcome above, heartbeat value, other nodes) must still agree
+        for w in (w1, w2):
+            for nd in w.gw.nodes.values():
+                nd.sleeping = False
+        _cmp_nodes(w1.gw, w2.gw, what)
+        return ["same-msg", cmd]
     _cmp_writes(wr1, wr2, what)
     _cmp_nodes(w1.gw, w2.gw, what)
     _cmp_buffers(w1.gw, w2.gw, what)
